@@ -245,7 +245,7 @@ package jrpc2
 //@   invariant[C08:M1] s.ch != nil ==> s.work != nil && !chanclosed(s.work)
 //@   invariant[C08:M2] s.ch == nil && s.work != nil ==> s.err != nil
 //@   invariant[C07:M4] forall(k string, in(s.used, k) ==> lookup(s.used, k) != nil && k != "" && allocated(lookup(s.used, k)))
-//@   invariant[C09:M3] forall(k string, in(s.call, k) ==> slotOpen(lookup(s.call, k)) && lookup(s.call, k).id == k && slotId(lookup(s.call, k).ch) == k && !(len(k) == 4 && k[0] == 'n' && k[1] == 'u' && k[2] == 'l' && k[3] == 'l') && k != "")
+//@   invariant[C09:M3] forall(k string, in(s.call, k) ==> slotOpen(lookup(s.call, k)) && allocated(lookup(s.call, k)) && allocated(lookup(s.call, k).ch) && lookup(s.call, k).id == k && slotId(lookup(s.call, k).ch) == k && !(len(k) == 4 && k[0] == 'n' && k[1] == 'u' && k[2] == 'l' && k[3] == 'l') && k != "")
 //@   invariant[C09:M3-distinct] forall(k1 string, k2 string, in(s.call, k1) && in(s.call, k2) && k1 != k2 ==> lookup(s.call, k1).ch != lookup(s.call, k2).ch)
 //@   invariant[C08:Q] qlen(fieldaddr(s, inq)) >= 0
 //@   invariant[C09:ids-never-reissued] s.callID == idsIssued(s) + 1
@@ -383,7 +383,7 @@ package jrpc2
 //@   root
 //@   transfer wgDebt(fieldaddr(s, wg)), 1
 //@   captures wfServer(s) && s.work != nil
-//@   modifies monitor(Server, s), fired, chCloses, chSends, held, wgDebt(fieldaddr(s, wg)), semHeld, handlerRuns, assignCalls
+//@   modifies monitor(Server, s), fired, chCloses, chSends, held, wgDebt(fieldaddr(s, wg)), semHeld, handlerRuns, assignCalls, wgDebt(fieldaddr(s, nbar))
 //@   requires !held(s.mu)
 //@   ensures[C08:done-paid] wgDebt(fieldaddr(s, wg)) == 0
 
@@ -392,7 +392,7 @@ package jrpc2
 // that the server has stopped and the queue is drained.
 //@ func (*Server).serve
 //@   requires wfServer(s) && !held(s.mu) && s.work != nil
-//@   modifies monitor(Server, s), fired, chCloses, chSends, held, wgDebt(fieldaddr(s, wg)), assignCalls
+//@   modifies monitor(Server, s), fired, chCloses, chSends, held, wgDebt(fieldaddr(s, wg)), assignCalls, wgDebt(fieldaddr(s, nbar))
 //@   ensures[C08:debts-handed-over] wgDebt(fieldaddr(s, wg)) == old(wgDebt(fieldaddr(s, wg))) && !held(s.mu)
 //@   loop 1 invariant !held(s.mu) && wgDebt(fieldaddr(s, wg)) == old(wgDebt(fieldaddr(s, wg)))
 
@@ -411,7 +411,7 @@ package jrpc2
 // notifications are still dispatched; otherwise pops exactly one batch.
 //@ func (*Server).nextRequest
 //@   requires wfServer(s) && !held(s.mu) && s.work != nil
-//@   modifies monitor(Server, s), held(s.mu), fired, assignCalls
+//@   modifies monitor(Server, s), held(s.mu), fired, assignCalls, wgDebt(fieldaddr(s, nbar))
 //@   ensures[C08:unlocked] !held(s.mu)
 //@   ensures[C08:dispatcher-or-cause] (result1 == nil) == (result0 != nil)
 //@   loop 1 invariant held(s.mu) && Server_mu_inv(s) && s.callID >= atlock(s.callID)
@@ -710,6 +710,7 @@ package jrpc2
 //@   fresh result1
 //@   at return#1 ghostset slotId(result1.ch) = id
 //@   ensures result0 != nil && slotOpen(result1) && result1.id == id && slotId(result1.ch) == id && isnew(result1) && isnew(result1.ch)
+//@   ensures[C04:other-slots-untouched] forall(x Int, !isnew(x) ==> slotId(x) == old(slotId(x)))
 
 // The goroutine that runs one server callback and sends its reply: pays its
 // Done; sends only under the lock and only while the client is not stopped.
@@ -743,7 +744,7 @@ package jrpc2
 //@   at call.FormatInt#1 assume[the request id counter does not wrap: fewer than 2^62 requests per client] c.nextID < 4611686018427387904
 //@   at defer.Unlock#1 ghostset reqsIssued(c) = reqsIssued(c) + 1
 //@   ensures[C04:unlocked] !held(fieldaddr(c, mu))
-//@   ensures[C04:has-id] result1 == nil ==> result0 != nil && len(result0.ID) > 0 && result0.M == method && !(len(result0.ID) == 4 && result0.ID[0] == 'n')
+//@   ensures[C04:has-id] result1 == nil ==> result0 != nil && len(result0.ID) > 0 && result0.M == method && !(len(result0.ID) == 4 && str(result0.ID)[0] == 'n')
 //@   ensures result1 != nil ==> result0 == nil
 
 //@ func (*Client).note
@@ -755,16 +756,22 @@ package jrpc2
 // happens under the lock; pending entries are filed only after a successful
 // Send, each under its own id, in request order, one per request with an id.
 //@ func (*Client).send
-//@   requires wfClient(c) && !held(fieldaddr(c, mu)) && ctx != nil && forall(i int, 0 <= i && i < len(reqs) ==> reqs[i] != nil && !(len(reqs[i].ID) == 4 && reqs[i].ID[0] == 'n'))
+//@   requires wfClient(c) && !held(fieldaddr(c, mu)) && ctx != nil && forall(i int, 0 <= i && i < len(reqs) ==> reqs[i] != nil && !(len(reqs[i].ID) == 4 && str(reqs[i].ID)[0] == 'n'))
 //@   modifies monitor(Client, c), held(fieldaddr(c, mu)), chSends, slotId
 //@   at call.Send#1 assert[C10:send-under-lock] held(fieldaddr(c, mu))
 //@   at call.Send#1 assert[C05:stopped-no-transmit] c.err == nil && c.ch != nil
 //@   ensures[C04:unlocked] !held(fieldaddr(c, mu))
 //@   ensures[C04:pends] result1 == nil ==> len(result0) <= len(reqs) && forall(i int, 0 <= i && i < len(result0) ==> result0[i] != nil && result0[i].ch != nil && result0[i].cancel != nil && slotId(result0[i].ch) == result0[i].id)
 //@   ensures[C05:error-no-pending] result1 != nil ==> result0 == nil
+//@   ensures[C04:one-per-request] result1 == nil && forall(i int, 0 <= i && i < len(reqs) ==> len(reqs[i].ID) > 0) ==> len(result0) == len(reqs)
 //@   ensures[C05:stopped-fails] !called("call.Send#1") ==> result1 != nil && forall(ch Iface, chSends(ch) == old(chSends(ch)))
 //@   loop 1 invariant len(pends) == len(pctxs) && len(pends) <= rangeindex + 1
-//@   loop 1 invariant forall(i int, 0 <= i && i < len(pends) ==> pends[i] != nil && isnew(pends[i]) && slotOpen(pends[i]) && slotId(pends[i].ch) == pends[i].id && pends[i].id != "" && !(len(pends[i].id) == 4 && pends[i].id[0] == 'n') && isnew(pends[i].ch) && pctxs[i] != nil)
+//@   loop 1 invariant forall(j int, 0 <= j && j <= rangeindex ==> len(reqs[j].ID) > 0) ==> len(pends) == rangeindex + 1
+//@   loop 1 invariant forall(i int, 0 <= i && i < len(pends) ==> pends[i] != nil && isnew(pends[i]) && allocated(pends[i]) && isnew(pends[i].ch) && allocated(pends[i].ch))
+//@   loop 1 invariant forall(i int, 0 <= i && i < len(pends) ==> slotOpen(pends[i]))
+//@   loop 1 invariant forall(i int, 0 <= i && i < len(pends) ==> slotId(pends[i].ch) == pends[i].id)
+//@   loop 1 invariant forall(i int, 0 <= i && i < len(pends) ==> pends[i].id != "" && !(len(pends[i].id) == 4 && pends[i].id[0] == 'n'))
+//@   loop 1 invariant forall(i int, 0 <= i && i < len(pends) ==> pctxs[i] != nil)
 //@   loop 1 invariant forall(i1 int, i2 int, 0 <= i1 && i1 < i2 && i2 < len(pends) ==> pends[i1].ch != pends[i2].ch && pends[i1] != pends[i2])
 //@   loop 2 invariant held(fieldaddr(c, mu)) && Client_mu_inv(c) && c.nextID >= atlock(c.nextID) && reqsIssued(c) >= atlock(reqsIssued(c))
 
@@ -848,17 +855,17 @@ package jrpc2
 // Call / Batch / Notify: built from req/note, send and wait.
 //@ func (*Client).Call
 //@   requires wfClient(c) && !held(fieldaddr(c, mu)) && ctx != nil
-//@   modifies monitor(Client, c), held(fieldaddr(c, mu)), chSends, slotId, Response.err, Response.result, Response.ch
+//@   modifies monitor(Client, c), held(fieldaddr(c, mu)), chSends, slotId, Response.err, Response.result, fired
 //@   ensures[C05:reply-or-error] (result0 == nil) != (result1 == nil)
 //@   ensures !held(fieldaddr(c, mu))
 
 //@ func (*Client).Batch
 //@   requires wfClient(c) && !held(fieldaddr(c, mu)) && ctx != nil
-//@   modifies monitor(Client, c), held(fieldaddr(c, mu)), chSends, slotId, Response.err, Response.result, Response.ch
+//@   modifies monitor(Client, c), held(fieldaddr(c, mu)), chSends, slotId, Response.err, Response.result, fired
 //@   ensures[C04:at-most-one-per-spec] result1 == nil ==> len(result0) <= len(specs) && forall(i int, 0 <= i && i < len(result0) ==> result0[i] != nil)
 //@   ensures[C05:error-no-responses] result1 != nil ==> result0 == nil
 //@   ensures !held(fieldaddr(c, mu))
-//@   loop 1 invariant !held(fieldaddr(c, mu)) && forall(j int, 0 <= j && j < rangeindex + 1 ==> reqs[j] != nil && !(len(reqs[j].ID) == 4 && reqs[j].ID[0] == 'n'))
+//@   loop 1 invariant !held(fieldaddr(c, mu)) && forall(j int, 0 <= j && j < rangeindex + 1 ==> reqs[j] != nil && !(len(reqs[j].ID) == 4 && str(reqs[j].ID)[0] == 'n'))
 //@   loop 2 invariant !held(fieldaddr(c, mu))
 
 //@ func (*Client).Notify
